@@ -317,6 +317,7 @@ def shards(tier, seed):
     out += [("streams",), ("files",)]
     out += [("apps", name) for name in ("mounts", "hosts", "middleware-over-mounts", "files-handle404", "pages-private")]
     out += [("staticpaths", k, 4) for k in range(4)]
+    out += [("hostile", name) for name in ("Accept", "Content-Type", "Content-Length", "Cookie", "Date", "Referer", "Host", "Range", "If-Range", "If-None-Match", "If-Modified-Since", "path", "query")]
     return out
 
 
@@ -383,6 +384,41 @@ def run_shard(desc, tier):
                 apps = {i: (lambda i=i: (lambda *a: mod(i).FileResponse(t.file, download_name=dn, content_type="text/x-c04")(*a)))() for i in ("wsgi", "asgi")}
                 compare(r, f"file:download_name={dn}", apps, SV.AReq(), "GET")
             r.sample({"recipe": "FileResponse chunk_size=4", "request": {"Range": "bytes=0-7"}})
+        finally:
+            t.close()
+    elif kind == "hostile":
+        # the mutation grammar of C12 as a differential: whatever the two stacks make of a hostile value, they must make the same of it
+        from . import c12
+        name = desc[1]
+        t = Tree()
+        try:
+            echo = {i: echo_app(i, read_body=False) for i in ("wsgi", "asgi")}
+            files = {i: compositions(i, t)["mounts"] for i in ("wsgi", "asgi")}
+            if name == "path":
+                for path in c12.path_variants(tier):
+                    areq = SV.AReq(path=path, headers=[("Host", "a.com")])
+                    compare(r, "hostile:path-echo", echo, areq, f"path {path!r:.60}")
+                    compare(r, "hostile:path-mounts", files, SV.AReq(path="/static" + path, headers=[("Host", "a.com")]), f"path /static{path!r:.60}")
+                    compare(r, "hostile:path-mounts", files, SV.AReq(path="/docs" + path, headers=[("Host", "a.com")]), f"path /docs{path!r:.60}")
+            elif name == "query":
+                for q in c12.query_variants():
+                    compare(r, "hostile:query", echo, SV.AReq(path="/p", query=q), f"query {q!r:.60}")
+            else:
+                seen = set()
+                for base in c12.BASES[name]:
+                    for v in itertools.chain([base], c12.edits(base, tier), c12.noise(2, c12.HOSTILE)):
+                        if v in seen:
+                            continue
+                        seen.add(v)
+                        if name in ("Range", "If-Range", "If-None-Match", "If-Modified-Since"):
+                            hs = [(name, v)] + ([("Range", "bytes=0-1")] if name == "If-Range" else [])
+                            compare(r, f"hostile:{name}", files, SV.AReq(path="/static/file.txt", headers=[("Host", "a.com")] + hs), f"{name}: {v!r:.60}")
+                            compare(r, f"hostile:{name}", files, SV.AReq(path="/docs/guide/", headers=[("Host", "a.com")] + hs), f"{name}: {v!r:.60}")
+                        else:
+                            compare(r, f"hostile:{name}", echo, SV.AReq(method="GET", path="/p", query=b"a=1", headers=[(name, v)]), f"{name}: {v!r:.60}")
+                            if name == "Host":
+                                compare(r, "hostile:Host-mounts", files, SV.AReq(path="/docs/guide", headers=[(name, v)]), f"Host: {v!r:.60} on a directory URL")
+            r.sample({"recipe": f"hostile {name} values (C12 grammar) through both stacks"})
         finally:
             t.close()
     elif kind == "staticpaths":
@@ -455,6 +491,8 @@ def replay(w):
         fams = [("sequences",)]
     elif fam == "file":
         fams = [("files",)]
+    elif fam == "hostile":
+        fams = [("hostile", n) for n in ("Accept", "Content-Type", "Content-Length", "Cookie", "Date", "Referer", "Host", "Range", "If-Range", "If-None-Match", "If-Modified-Since", "path", "query")]
     elif rec == "app:mounts-static":
         fams = [("staticpaths", k, 4) for k in range(4)]
     else:
